@@ -432,6 +432,12 @@ class ExprMixin:
             for nm in bound:
                 inner = inner.define(nm, it.taint)
             inner = self.bind_elem(inner, g.target, it)
+            # `for x in range(start, stop, k)` inside a comprehension: same facts as in a for statement
+            rng = self._range_args(st, g.iter)
+            if rng is not None and isinstance(g.target, ast.Name):
+                inner2 = self._range_iteration_facts(inner, st, g.target.id, rng, self.fresh_ghost(g.target, "c"))
+                if inner2 is not None:
+                    inner = inner2
             for c in g.ifs:
                 t, f = self.interp.cond(inner, c)
                 inner = t if t is not None else inner
@@ -453,6 +459,33 @@ class ExprMixin:
             elif rng is None:
                 length = self._val_of(st, it_node).length
         return out, AVal(kind=kind, taint=taint, elem=ev if len(elts) == 1 else None, length=length)
+
+    def _range_iteration_facts(self, inner: St, outer: St, name: str, rng, ghost: str) -> Optional[St]:
+        """Facts about one (arbitrary) iteration of range(start, stop, k): start + k*g <= stop - 1, x == start + k*g, and the
+        strided-range lemma x + k <= stop when (stop - start) is known to be a multiple of k."""
+        start, stop, step = rng
+        if not (step.const is not NOCONST and isinstance(step.const, int) and step.const >= 1 and start.lin is not None and stop.lin is not None):
+            return None
+        k = step.const
+        G = Lin.atom(ghost)
+        f = inner.f.kill(names=[ghost])
+        f2 = f.add_ge(G)
+        f = f2 if f2 is not None else f
+        f2 = f.add_ge(stop.lin - start.lin - G.scale(k) - Lin.const(1))
+        if f2 is None:
+            return None
+        f = f2
+        f2 = f.add_eq(Lin.atom(name) - start.lin - G.scale(k))
+        f = f2 if f2 is not None else f
+        if k > 1:
+            d = stop.lin - start.lin
+            for p in outer.f.preds:
+                if p[0] == "mod" and p[2] % k == 0 and p[3] == 0 and isinstance(p[1], Lin):
+                    diff = d - p[1]
+                    if diff.is_const() and diff.c % k == 0:
+                        f2 = f.add_ge(stop.lin - Lin.atom(name) - Lin.const(k))
+                        f = f2 if f2 is not None else f
+        return inner.with_f(f) or inner
 
     def bind_elem(self, st: St, target: ast.AST, container: AVal) -> St:
         """Bind loop/comprehension target facts from the container's abstract element."""
